@@ -139,12 +139,13 @@ structure Member (S P : Type) where
   rsBox : Option (List (DkgResp S P))
   stage : Stage S P
   sent : List (Sent S P)
+  lastGen : Option (Gen S P)     -- the generator as the last stage that ran left it (kept after a failure)
   deriving Repr
 
 def Member.init (n index : Nat) (long : S) (f ephs : List S) : Member S P :=
   { n := n, index := index, long := long, f := f, ephs := ephs,
     pkP := ⟨[], none⟩, dlP := ⟨[], none⟩, rsP := ⟨[], none⟩,
-    pkBox := none, dlBox := none, rsBox := none, stage := .idle, sent := [] }
+    pkBox := none, dlBox := none, rsBox := none, stage := .idle, sent := [], lastGen := none }
 
 /-- run every stage whose predecessor has finished and whose batch has been handed over -/
 def Member.advance (g : P) (fuel : Nat) (m : Member S P) : Member S P :=
@@ -161,7 +162,7 @@ def Member.advance (g : P) (fuel : Nat) (m : Member S P) : Member S P :=
         | some d =>
           match deals g d m.ephs with
           | .ok (d1, ds) =>
-            Member.advance g fuel { m with pkBox := none, stage := .waitDeals d1,
+            Member.advance g fuel { m with pkBox := none, stage := .waitDeals d1, lastGen := some d1,
                                            sent := m.sent ++ ds.map (fun x => Sent.deal x.1 x.2) }
           | _ => { m with pkBox := none, stage := .failed "owndeal" }
     | .waitDeals d =>
@@ -169,20 +170,21 @@ def Member.advance (g : P) (fuel : Nat) (m : Member S P) : Member S P :=
       | none => m
       | some batch =>
         match runDeals g d batch [] with
-        | (_, none) => { m with dlBox := none, stage := .failed "noapproval" }
+        | (d1, none) => { m with dlBox := none, stage := .failed "noapproval", lastGen := some d1 }
         | (d1, some rs) =>
-          Member.advance g fuel { m with dlBox := none, stage := .waitResps d1, sent := m.sent ++ [Sent.resps rs] }
+          Member.advance g fuel { m with dlBox := none, stage := .waitResps d1, lastGen := some d1,
+                                         sent := m.sent ++ [Sent.resps rs] }
     | .waitResps d =>
       match m.rsBox with
       | none => m
       | some batch =>
         match runResps g d batch with
-        | (_, false) => { m with rsBox := none, stage := .failed "response" }
+        | (d1, false) => { m with rsBox := none, stage := .failed "response", lastGen := some d1 }
         | (d1, true) =>
           match genGroup d1 with
-          | .ok ks => { m with rsBox := none, stage := .done d1 ks }
-          | .err e => { m with rsBox := none, stage := .failed e.name }
-          | .panic _ => { m with rsBox := none, stage := .failed "panic" }
+          | .ok ks => { m with rsBox := none, stage := .done d1 ks, lastGen := some d1 }
+          | .err e => { m with rsBox := none, stage := .failed e.name, lastGen := some d1 }
+          | .panic _ => { m with rsBox := none, stage := .failed "panic", lastGen := some d1 }
     | _ => m
 
 /-- `Grouping`: the three `askMembers` requests reach `Loop`, the own public key goes out -/
